@@ -4,6 +4,7 @@ import (
 	"bytes"
 	"context"
 	"fmt"
+	"math"
 	"strings"
 
 	"github.com/arr-ai/arrai/rel"
@@ -204,6 +205,9 @@ func stdSeqRepeat(_ context.Context, arg rel.Value) (rel.Value, error) {
 	}
 	n := int(count)
 	return rel.NewNativeFunction("repeat(n)", func(_ context.Context, arg rel.Value) (rel.Value, error) {
+		if seq, is := arg.(rel.Set); is && n > 0 && seq.Count() > math.MaxInt32/n {
+			return nil, fmt.Errorf("//seq.repeat: result too large: %d x %d elements", n, seq.Count())
+		}
 		switch seq := arg.(type) {
 		case rel.String:
 			if n < 0 {
